@@ -105,6 +105,13 @@ def standard_run(ck, P, replay_cases=None):
 
         impl, model = [], []
         run_cases(cases)
+        if replay_cases is None and ck.failures and not ck.violations and hasattr(P, "targeted"):
+            # a tie broke without a property-violating input: let the property derive cases from the ones that broke
+            # (e.g. C15: every kill point of the syscall sequence that no longer matches the model)
+            extra = list(P.targeted([f.case for f in ck.failures if f.case]))
+            if extra:
+                ck.notes.append(f"correspondence broken without a property-violating input: {len(extra)} targeted cases derived from the broken ones")
+                run_cases(extra)
         if replay_cases is None and ck.failures and not ck.violations:
             # a tie broke and no input is known yet on which the property fails: search more widely
             # (fresh seed, four times the budget) before reporting no-failing-input-found
